@@ -130,11 +130,11 @@ Fixpoint rect_update (mean std scale : vec) : box :=
   | _, _, _ => []
   end.
 
-(* hyperrectangle_check_intersection: not (any(l1 >= u2) or any(u1 <= l2)) *)
+(* hyperrectangle_check_intersection: not (any(l1 > u2) or any(u1 < l2)) — closed boxes that share a face intersect *)
 Fixpoint check_intersection (b1 b2 : box) : bool :=
   match b1, b2 with
   | (l1, u1) :: b1', (l2, u2) :: b2' =>
-      negb (Qle_bool u2 l1) && negb (Qle_bool u1 l2) && check_intersection b1' b2'
+      Qle_bool l1 u2 && Qle_bool l2 u1 && check_intersection b1' b2'
   | _, _ => true
   end.
 
@@ -175,17 +175,17 @@ Qed.
 
 Lemma check_intersection_true b1 b2 : length b1 = length b2 ->
   (check_intersection b1 b2 = true <->
-   forall i, (i < length b1)%nat -> fst (nth i b1 (0,0)) < snd (nth i b2 (0,0)) /\ fst (nth i b2 (0,0)) < snd (nth i b1 (0,0))).
+   forall i, (i < length b1)%nat -> fst (nth i b1 (0,0)) <= snd (nth i b2 (0,0)) /\ fst (nth i b2 (0,0)) <= snd (nth i b1 (0,0))).
 Proof.
   revert b2; induction b1 as [|[l1 u1] b1 IH]; intros [|[l2 u2] b2] Hl; simpl in *; try discriminate.
   - split; auto. intros; lia.
-  - rewrite !andb_true_iff, !negb_true_iff. rewrite IH by lia. split.
+  - rewrite !andb_true_iff, !Qle_bool_iff. rewrite IH by lia. split.
     + intros [[H1 H2] H3] [|i] Hi; simpl.
-      * split; apply Qnot_le_lt; intro C; apply Qle_bool_iff in C; congruence.
+      * split; assumption.
       * apply H3. lia.
     + intros H. split; [split|].
-      * destruct (H 0%nat) as [A B]; [lia|]. simpl in *. destruct (Qle_bool u2 l1) eqn:E; auto. apply Qle_bool_iff in E. lra.
-      * destruct (H 0%nat) as [A B]; [lia|]. simpl in *. destruct (Qle_bool u1 l2) eqn:E; auto. apply Qle_bool_iff in E. lra.
+      * destruct (H 0%nat) as [A B]; [lia|]. exact A.
+      * destruct (H 0%nat) as [A B]; [lia|]. exact B.
       * intros i Hi. apply (H (S i)). lia.
 Qed.
 
@@ -210,10 +210,8 @@ Lemma box_meet_wf b1 b2 : length b1 = length b2 -> check_intersection b1 b2 = tr
   wf_box b1 -> wf_box b2 -> wf_box (box_meet b1 b2).
 Proof.
   revert b2; induction b1 as [|[l1 u1] b1 IH]; intros [|[l2 u2] b2] Hl Hc H1 H2; simpl in *; try discriminate; try constructor.
-  - simpl. rewrite !andb_true_iff, !negb_true_iff in Hc. destruct Hc as [[A B] C].
+  - simpl. rewrite !andb_true_iff, !Qle_bool_iff in Hc. destruct Hc as [[A B] C].
     inversion H1; inversion H2; subst; simpl in *.
-    assert (l1 < u2) by (apply Qnot_le_lt; intro X; apply Qle_bool_iff in X; congruence).
-    assert (l2 < u1) by (apply Qnot_le_lt; intro X; apply Qle_bool_iff in X; congruence).
     apply Q.max_lub; apply Q.min_glb; lra.
   - rewrite !andb_true_iff in Hc. inversion H1; inversion H2; subst. apply IH; auto; tauto.
 Qed.
